@@ -18,7 +18,7 @@ SPEC = {
             "distinct (command, scenario, grammar, constraint skeleton, outcome)",
     "minimum": {"quick": {"check_verdicts_judged": 150, "solve_outputs_checked": 60, "parse_outputs_checked": 20, "malformed_judged": 40,
                           "missing_judged": 20, "subprocess_compared": 10, "repair_mutate_runs": 20},
-                "thorough": {"check_verdicts_judged": 6000, "solve_outputs_checked": 1500, "malformed_judged": 1500, "subprocess_compared": 400}},
+                "thorough": {"check_verdicts_judged": 2100, "solve_outputs_checked": 1500, "malformed_judged": 600, "subprocess_compared": 200}},
     "assumptions": ["R1/R2 for the expected verdict; ambiguous inputs and R2 abstentions are inconclusive",
                     "grammars without newline terminals (file input strips one trailing newline)",
                     "'malformed' = texts the documented BNF / ISLa grammars reject at the token-sequence level; lexer-tolerated "
